@@ -355,13 +355,14 @@ Definition pd_sub (a b : phdata) : bool :=
                                       (pd_timedout e =? pd_timedout f)%Z) b) a.
 Definition pairs_sub (a b : list (N * N)) : bool := forallb (fun p => existsb (fun q => (fst p =? fst q) && (snd p =? snd q)) b) a.
 Definition types3 : list tid := [1; 2; 3].
-Definition gst_same (nodes : list N) (M V : gst) : bool :=
+Definition gst_same (live ledgers : bool) (nodes : list N) (M V : gst) : bool :=
   (gs_state M =? gs_state V) && Bool.eqb (gs_phtimer M) (gs_phtimer V) && Bool.eqb (gs_statetimer M) (gs_statetimer V) &&
   pd_sub (gs_pd M) (gs_pd V) && pd_sub (gs_pd V) (gs_pd M) &&
   objs_sub (gs_objs M) (gs_objs V) && objs_sub (gs_objs V) (gs_objs M) &&
   pairs_sub (gs_nodes M) (gs_nodes V) && pairs_sub (gs_nodes V) (gs_nodes M) &&
-  eq_on types3 (gs_queue M) (gs_queue V) && eq_on types3 (gs_user M) (gs_user V) &&
-  forallb (fun n => eq_on types3 (gs_nodeuse M n) (gs_nodeuse V n)) nodes.
+  (negb ledgers ||
+   ((negb live || eq_on types3 (gs_queue M) (gs_queue V)) && eq_on types3 (gs_user M) (gs_user V) &&
+    forallb (fun n => eq_on types3 (gs_nodeuse M n) (gs_nodeuse V n)) nodes)).
 
 (* announcements of the step that concern the application *)
 Definition obs_rel (a : N) (evs : list oevent) : list (N * N) :=
@@ -380,14 +381,31 @@ Definition model_ops (pre : ostate) (st : ostep) (a : N) : option (list gop) :=
       | OpFireState a' => if (a' =? a) && ap_statetimer ap0 && (ap_state ap0 =? ST_Completing) then Some [GStateTimeout] else None
       | OpRelease a' k ty => if (a' =? a) && negb (k =? 0) && negb (st_malformed st) then Some [GRelease k ty] else None
       | OpSched =>
-          match flat_map (fun e => match e with
+          (* placeholders cancelled because a pending real ask of their task group is larger (validated: such an
+             ask must exist), then at most one swap decision *)
+          let cancels := flat_map (fun e => match e with
+                                   | ERelease phk a' ty => if (a' =? a) && (ty =? TT_Timeout) then [phk] else []
+                                   | _ => [] end) (st_events st) in
+          let cancel_ops := map (fun phk =>
+             match find_alloc (ap_allocs ap0) phk with
+             | Some ph =>
+                 match find (fun r => negb (oa_ph r) && negb (oa_allocated r) && (oa_tg r =? oa_tg ph) && negb (oa_tg r =? 0) &&
+                                      negb (swap_size_ok (oa_res ph) (oa_res r))) (ap_requests ap0) with
+                 | Some r => GCancelLarger (oa_key r) phk
+                 | None => GCancelLarger 0 phk
+                 end
+             | None => GCancelLarger 0 phk
+             end) cancels in
+          let swaps := flat_map (fun e => match e with
                                    | ERelease phk a' ty => if (a' =? a) && (ty =? TT_PlaceholderReplaced) then [phk] else []
-                                   | _ => [] end) (st_events st) with
+                                   | _ => [] end) (st_events st) in
+          match swaps with
+          | [] => match cancel_ops with [] => None | _ => Some cancel_ops end
           | [phk] =>
               match find_anyapp (st_obs st) a with
               | Some ap => match find_alloc (ap_allocs ap) phk with
                            | Some ph => match find_alloc (ap_requests ap) (oa_release ph) with
-                                        | Some r => Some [GSwap (oa_key r) phk (if oa_node r =? oa_node ph then None else Some (oa_node r))]
+                                        | Some r => Some (cancel_ops ++ [GSwap (oa_key r) phk (if oa_node r =? oa_node ph then None else Some (oa_node r))])
                                         | None => None end
                            | None => None end
               | None => None end
@@ -433,7 +451,11 @@ Definition c06_model_step (hards : list (N * bool)) (poison : list (N * N * N)) 
             | None => []        (* the application left the partition in this step *)
             | Some ap =>
                 let V := proj06 (st_obs st) ap hard in
-                if gst_same (map on_id (s_nodes (st_obs st))) M V &&
+                (* the ledgers are shared with other applications: in a scheduling cycle they are compared only when the
+                   cycle's single result is this application's swap decision *)
+                let ledgers := negb (is_sched (st_op st)) || existsb (fun o => match o with GSwap _ _ _ => true | _ => false end) ops in
+                if gst_same (match find_app (st_obs st) a with Some _ => true | None => false end) ledgers
+                            (map on_id (s_nodes (st_obs st))) M V &&
                    pairs_sub (mod_rel evs) (obs_rel a (st_events st)) && pairs_sub (obs_rel a (st_events st)) (mod_rel evs) &&
                    pairs_sub (mod_new evs) (obs_new a (st_events st)) && pairs_sub (obs_new a (st_events st)) (mod_new evs)
                 then [] else bad
